@@ -30,7 +30,7 @@ func Register() {
 		},
 		Probes: []string{"C18.value_checks", "C18.value_checks_plain", "C18.value_checks_oracle", "C18.result_checks",
 			"C18.reread_checks", "C18.once_checks", "C18.oracle_entry_checks", "C13.random_queue_checks",
-			"random.interval_zero", "random.several_due_at_one_height", "random.same_requester_two_blocks_one_due_height",
+			"random.interval_zero", "random.several_due_at_one_height", "random.same_requester_two_blocks_one_due_height", "random.oracle_and_plain_due_at_one_height",
 			"random.absent_at_due_height", "random.seed_valid", "random.seed_garbage", "random.seed_failure_report",
 			"random.seed_timeout", "random.oracle_request_refused"},
 		Rule: "a run is non-trivial when at least one freshly fulfilled request had its number compared with the harness's own computation from (previous app hash, block time, requester, seed), more than two result queries were compared with the fulfilment schedule, and the pending queue was compared with the ledger; distinct = different fingerprint of the executed (operation kind, outcome class) sequence",
